@@ -156,7 +156,7 @@ def _jvp_wiring(name, cls, n_params, noise_position):
     """reparameterised primitives that differentiate a closure with jax.jvp: the closure must be differentiated AT the parameter
     primals WITH the parameter tangents of the dual tree (in the same order), and the result is the (primal, tangent) pair
     jax.jvp returns.  jax.jvp itself is external (A7)."""
-    @task(f"adev.{name}", props=["C29"], functions=[P + f":{cls}.before_tail_call"])
+    @task(f"adev.{name}", props=["C29", "C30"], functions=[P + f":{cls}.before_tail_call"])
     def t(E):
         z3 = E.z3
         k = key(E)
@@ -167,6 +167,22 @@ def _jvp_wiring(name, cls, n_params, noise_position):
             seen["f"], seen["primals"], seen["tangents"] = f, list(I.iterate(primals)), list(I.iterate(tangents))
             return (po, to)
         E.I.ext["jax.jvp"] = fake_jvp
+        draws = []
+
+        class StdNormal:          # tfd.Normal(loc, scale): only .sample is needed; records what was asked for
+            def __init__(self, loc, scale):
+                self.loc, self.scale = loc, scale
+
+            def pyvc_getattr(self, I, name):
+                if name != "sample":
+                    raise KeyError(name)
+
+                def sample(I_, sample_shape=(), seed=None):
+                    draws.append(dict(loc=self.loc, scale=self.scale, shape=sample_shape, seed=seed))
+                    return UVal(E.ctx.fn("normal_draw", U, U, U)(I_.to_u(seed), I_.to_u(sample_shape)), "array")
+                return NativeFn("Normal.sample", sample)
+        for path in ("distributions.Normal", "tensorflow_probability.substrates.jax.distributions.Normal"):
+            E.I.ext[path] = lambda I, loc=0.0, scale=1.0: StdNormal(loc, scale)
         ps_in = [E.opaque(f"param{j}", "array") for j in range(n_params)]
         ts_in = [E.opaque(f"dparam{j}", "array") for j in range(n_params)]
         prim = E.new(P + ":" + cls)
@@ -178,11 +194,20 @@ def _jvp_wiring(name, cls, n_params, noise_position):
         E.prove(f"C29.{cls}.before_tail_call.tangents_are_the_parameter_tangents", E.And(*[E.eq(a, b) for a, b in zip(ts, ts_in)]))
         E.prove(f"C29.{cls}.before_tail_call.returns_the_dual_jax_jvp_computed", E.And(
             is_obj(d, "Dual"), E.eq(d.fields["primal"], po), E.eq(d.fields["tangent"], to)))
+        if noise_position == "standard_normal_per_component":
+            # the reparameterisation noise: ONE standard-normal draw PER COMPONENT of the location (independent components),
+            # with a key derived from the given key
+            from theory import keys as KY
+            E.require(f"C29.{cls}.before_tail_call.draws_its_noise_once_from_a_standard_normal", len(draws) == 1
+                      and draws[0]["loc"] == 0.0 and draws[0]["scale"] == 1.0)
+            E.prove(f"C29.{cls}.before_tail_call.noise_has_one_independent_component_per_component_of_the_location", z3.And(
+                E.I.to_u(draws[0]["shape"]) == E.I.to_u(E.I.getattr(ps_in[0], "shape")),
+                KY.derived_from(E.I, E.I.to_u(draws[0]["seed"]), k.t)), also=["C30"])
         E.refutable(f"adev.{name}", E.eq(ps[0], ts_in[0]))
     return t
 
 
-_jvp_wiring("mv_normal_diag_reparam", "MvNormalDiagREPARAM", 2, None)
+_jvp_wiring("mv_normal_diag_reparam", "MvNormalDiagREPARAM", 2, "standard_normal_per_component")
 _jvp_wiring("beta_implicit", "BetaIMPLICIT", 2, None)
 
 
